@@ -1,9 +1,11 @@
 import PytezosModel.Props.C02
+#print axioms C02.hasTy_is_checkVal
 #print axioms C02.preservation
 #print axioms C02.preservation_runtime_types
 #print axioms C02.run_preserves_types
 #print axioms C02.type_soundness
 #print axioms C02.welltyped_run_preserves_types
+#print axioms C02.strict_run_preserves_types
 #print axioms C02.failing_type_never_returns
 #print axioms C02.storage_has_declared_type
 #print axioms C02.map_keeps_key_type
